@@ -205,32 +205,38 @@ def _init(randomize):
     cands.init_worker(overrides={('placement', 'randomize_allocation_candidates'): randomize}, use_model=False)
 
 
+def _probe_one(c):
+    with tempfile.NamedTemporaryFile('w', suffix='.json', dir='/dev/shm', delete=False) as f:
+        json.dump(c, f)
+        path = f.name
+    try:
+        procs = []
+        for hs in ('1', '2', '3'):
+            env = dict(os.environ, PYTHONHASHSEED=hs)
+            procs.append(subprocess.Popen([sys.executable, '-m', 'harness.props.c20', 'probe', path],
+                                          stdout=subprocess.PIPE, stderr=subprocess.PIPE, text=True, cwd=ROOT, env=env))
+        outs = []
+        for p in procs:
+            so, se = p.communicate(timeout=300)
+            if p.returncode != 0:
+                raise RuntimeError('probe failed: %s' % se[-400:])
+            outs.append(json.loads(so.strip().split('\n')[-1]))
+        return outs
+    finally:
+        os.unlink(path)
+
+
 def hashseed_probe(cases):
     """repeat limited requests in fresh interpreters with different PYTHONHASHSEED (randomisation off)"""
-    res = []
-    for c in cases:
-        with tempfile.NamedTemporaryFile('w', suffix='.json', dir='/dev/shm', delete=False) as f:
-            json.dump(c, f)
-            path = f.name
-        outs = []
-        try:
-            for hs in ('1', '2', '3'):
-                env = dict(os.environ, PYTHONHASHSEED=hs)
-                p = subprocess.run([sys.executable, '-m', 'harness.props.c20', 'probe', path], capture_output=True,
-                                   text=True, cwd=ROOT, env=env, timeout=120)
-                if p.returncode != 0:
-                    raise RuntimeError('probe failed: %s' % p.stderr[-400:])
-                outs.append(json.loads(p.stdout.strip().split('\n')[-1]))
-        finally:
-            os.unlink(path)
-        res.append((c, outs))
-    return res
+    from concurrent.futures import ThreadPoolExecutor
+    with ThreadPoolExecutor(max_workers=5) as ex:
+        return list(zip(cases, ex.map(_probe_one, cases)))
 
 
 def run(chk):
     if not getattr(chk, 'no_lean', False):
         chk.lean_stage(META['lean_module'], exe=True)
-    n_states, nq, n_probe = (500, 3, 4) if chk.tier == 'quick' else (10000, 3, 40)
+    n_states, nq, n_probe = (400, 3, 5) if chk.tier == 'quick' else (8000, 3, 40)
     procs = min(16, os.cpu_count() or 4)
     ctx = mp.get_context('fork')
     errors = []
